@@ -113,6 +113,10 @@ class DriverError(RuntimeError):
 def run_driver(lines: list[str], timeout: float = 600.0) -> list[str]:
     if not lines:
         return []
+    for _ in range(60):                 # a concurrent relink removes the binary for a moment
+        if DRIVER.exists():
+            break
+        time.sleep(0.5)
     if not DRIVER.exists():
         raise DriverError(f"driver not built: {DRIVER}")
     p = subprocess.run([str(DRIVER)], input="\n".join(lines) + "\n", capture_output=True, text=True, timeout=timeout)
